@@ -387,7 +387,64 @@ class FnA:
         site = None
         if self._call_has_effects(t):
             site = (point[0],)
+        elif f["crate"] in self.world.local_crates:
+            v = self._inline_value_helper(f["stable"], args)
+            if v is not None:
+                return v
         return ("call", path, args, site, f["stable"] if f["crate"] in self.world.local_crates else None)
+
+    def _inline_value_helper(self, stable, args):
+        """A call of a small, straight-line, effect-free workspace helper that no rule refers to by name reads as the expression
+        it returns (so extracting a sub-expression into a private fn, or not, is the same value)."""
+        from .pathcond import named_in_rules
+        if stable.rsplit("::", 1)[-1] in named_in_rules() or stable == self.fn.stable or stable in _value_inline_stack or len(_value_inline_stack) >= 2:
+            return None
+        callee = self.world.fn(stable)
+        if callee is None or callee.kind not in ("fn", "method") or callee.argc != len(args) or len(callee.blocks) > 16:
+            return None
+        if callee.locals[0]["ty"] in ("bool", "()"):
+            return None  # predicates are expanded by the path analysis, with their control flow
+        from .cfg import cfg_of
+        cfg = cfg_of(callee)
+        if len(cfg.returns) != 1:
+            return None
+        for bi in cfg.live:
+            t = callee.blocks[bi]["term"]
+            if callee.blocks[bi]["cleanup"]:
+                continue
+            if t["k"] in ("switch", "yield", "inlineasm"):
+                return None
+            if t["k"] == "call" and ("id" not in t["f"] or self._callee_effects(callee, t)):
+                return None
+        if self.eff.W(callee.id) or self.eff.WW(callee.id):
+            return None
+        _value_inline_stack.append(stable)
+        try:
+            cfa = fna_of(self.world, callee)
+            r = cfg.returns[0]
+            v = cfa.val_local(0, (r, len(callee.blocks[r]["stmts"])))
+            v = strip_old(v)
+            for x in walk(v):
+                if x[0] in ("var", "unknown", "resume", "upvar", "localbool", "phi"):
+                    return None
+                if x[0] == "call" and x[3] is not None:
+                    return None
+
+            def mapping(x):
+                if isinstance(x, tuple) and x and x[0] == "param":
+                    return args[x[1] - 1] if 1 <= x[1] <= len(args) else ("unknown",)
+                return None
+            return subst(v, mapping)
+        except Exception:
+            return None
+        finally:
+            _value_inline_stack.pop()
+
+    def _callee_effects(self, callee, t):
+        try:
+            return fna_of(self.world, callee)._call_has_effects(t)
+        except Exception:
+            return True
 
     def _call_has_effects(self, t):
         f = t["f"]
@@ -669,6 +726,7 @@ def show(e, names=None):
 
 
 _fna_cache = {}
+_value_inline_stack = []
 
 
 def fna_of(world, fn):
